@@ -4,7 +4,7 @@
    (integer payloads, strings: unbounded) are proved on top of them. *)
 From Coq Require Import List ZArith Bool Lia.
 From Basyx Require Import model.ConstraintsBase model.TypedBase gen.Gen_IntRanges gen.Gen_TypedValues model.TypedValue
-  gen.Gen_TypedSetters.
+  gen.Gen_TypedSetters model.TypedItems.
 Import ListNotations.
 
 (* ---------------------------------------------------------------- finite universe *)
@@ -382,7 +382,7 @@ Proof.
   destruct (trivial_cast y t); reflexivity.
 Qed.
 Lemma gen_property_value_type : forall h t, hopt h = false ->
-  hstep h (HSetType t) = holder_of h (set_Property_value_type (htype h) (hval h) None t).
+  hstep h (HSetType t) = holder_of h (set_Property_value_type (htype h) (hval h) None false t).
 Proof.
   intros [o t0 x] t Ho. cbn in Ho. subst o. unfold set_Property_value_type, hstep, hset_type, holder_of, tcast, bind_tc. cbn.
   destruct x as [y|]; cbn; [|reflexivity]. destruct t as [t|]; cbn; [|reflexivity].
@@ -390,7 +390,7 @@ Proof.
 Qed.
 Lemma gen_qualifier_as_property : forall t a b v w,
   set_Qualifier_value t a b v = set_Property_value t a b v /\
-  set_Qualifier_value_type t a b w = set_Property_value_type t a b w.
+  set_Qualifier_value_type t a b false w = set_Property_value_type t a b false w.
 Proof. intros; split; reflexivity. Qed.
 Lemma gen_extension_value : forall h v, hopt h = true ->
   hstep h (HSetValue v) = holder_of h (set_Extension_value (htype h) (hval h) None v).
@@ -400,7 +400,7 @@ Proof.
   destruct (trivial_cast y t); reflexivity.
 Qed.
 Lemma gen_extension_value_type : forall h t, hopt h = true ->
-  hstep h (HSetType t) = holder_of h (set_Extension_value_type (htype h) (hval h) None t).
+  hstep h (HSetType t) = holder_of h (set_Extension_value_type (htype h) (hval h) None false t).
 Proof.
   intros [o t0 x] t Ho. cbn in Ho. subst o. unfold set_Extension_value_type, hstep, hset_type, holder_of, tcast, bind_tc. cbn.
   destruct x as [y|]; cbn; [|reflexivity]. destruct t as [t|]; cbn; [|reflexivity].
@@ -419,13 +419,44 @@ Proof.
   destruct v as [y|]; cbn; [|reflexivity]. destruct (trivial_cast y t); reflexivity.
 Qed.
 Lemma gen_range_value_type : forall r t,
-  range_of r (set_Range_value_type (Some (rtype r)) (rmin r) (rmax r) (Some t)) = Some (rstep r (RSetType t)).
+  range_of r (set_Range_value_type (Some (rtype r)) (rmin r) (rmax r) false (Some t)) = Some (rstep r (RSetType t)).
 Proof.
   intros [t0 a b] t. unfold set_Range_value_type, rstep, range_of, cast_opt, tcast, bind_tc. cbn.
   destruct a as [x|]; cbn.
   - destruct (trivial_cast x t); cbn; [|reflexivity]. destruct b as [y|]; cbn; [|reflexivity].
     destruct (trivial_cast y t); reflexivity.
   - destruct b as [y|]; cbn; [|reflexivity]. destruct (trivial_cast y t); reflexivity.
+Qed.
+
+(* AASd-109 on assignment to value_type of an item of a SubmodelElementList of Properties / Ranges (the guard of the
+   translated setters; list_other = the list announces another class than the argument) *)
+Lemma gen_list_child_refused : forall ty a b t,
+  set_Property_value_type ty a b true t = inr (EAASd 109) /\ set_Range_value_type ty a b true t = inr (EAASd 109).
+Proof. intros; split; reflexivity. Qed.
+
+Lemma retype_item_keeps_109 : forall vtle ty a b t ty' a' b',
+  (retype_property_item vtle ty a t = inl (ty', a', b') -> ty' = Some vtle) /\
+  (retype_range_item vtle ty a b t = inl (ty', a', b') -> ty' = Some vtle).
+Proof.
+  intros vtle ty a b t ty' a' b'. unfold retype_property_item, retype_range_item, set_Property_value_type,
+    set_Range_value_type, bind_tc, tcast.
+  destruct (pcls_beq t vtle) eqn:E; cbn.
+  - apply pcls_beq_eq in E. subst t. split.
+    + destruct a as [x|]; cbn; [destruct (trivial_cast x vtle); cbn|]; intros H; inversion H; reflexivity.
+    + destruct a as [x|]; cbn.
+      * destruct (trivial_cast x vtle); cbn; [|discriminate].
+        destruct b as [y|]; cbn; [destruct (trivial_cast y vtle); cbn|]; intros H; inversion H; reflexivity.
+      * destruct b as [y|]; cbn; [destruct (trivial_cast y vtle); cbn|]; intros H; inversion H; reflexivity.
+  - split; discriminate.
+Qed.
+
+Lemma retype_item_refused_unchanged : forall vtle ty a b t, t <> vtle ->
+  retype_property_item vtle ty a t = inr (EAASd 109) /\ retype_range_item vtle ty a b t = inr (EAASd 109).
+Proof.
+  intros vtle ty a b t Hne. unfold retype_property_item, retype_range_item.
+  assert (E : pcls_beq t vtle = false).
+  { destruct (pcls_beq t vtle) eqn:E; [apply pcls_beq_eq in E; contradiction | reflexivity]. }
+  rewrite E. cbn. split; reflexivity.
 Qed.
 
 (* ---------------------------------------------------------------- non-vacuity *)
